@@ -24,7 +24,7 @@ func init() {
 			"an external result with LANG and empty content is not generated (the text does not say what it means)",
 			"validity of ISO-639 codes is judged by a small table in the model (nor/no, swa/sw, fra/fr/fre, deu/de/ger, eng/en valid; xx, klingon invalid)",
 		},
-		Real:       append(append([]string{}, realAll...), "resource.DbResource over db/mem (second stack)"),
+		Real:       append(append([]string{}, realAll...), "resource.DbResource over db/mem (second stack)", "resource.PoResource over generated .po files on the real file system (third stack, 1 run in 12)"),
 		Stub:       append(append([]string{}, stubAll...), "reference model refvm (oracle)"),
 		FaultKinds: []string{"restart", "ext_lang_switch", "ext_lang_invalid", "lookup_miss", "ext_error"},
 	})
@@ -54,18 +54,31 @@ func runC18(c *core.Ctx) *core.Outcome {
 	if cfg.First {
 		cfg.FirstContent = []string{"", "-", "fra", "sw", "xx"}[t.Int(5)]
 	}
-	a := app.Generate(t, c18Profile(cfg.FlagCount))
+	// resource stack: the harness resource, the library's DbResource over a recording store, or (one run
+	// in 12: it needs files on the real file system) the library's gettext resource over generated .po files
+	stack := t.Weighted(11, 11, 2)
+	prof := c18Profile(cfg.FlagCount)
+	if stack == 2 {
+		prof.StaticSyms = false // static loads are a DbResource feature
+	}
+	a := app.Generate(t, prof)
 	if err := a.Validate(); err != nil {
 		panic("generator produced ill-formed app: " + err.Error())
 	}
 	persisted := t.Chance(1, 2)
-	dbStack := t.Chance(1, 2)
+	dbStack := stack == 1
 	r := newModelRun(a, cfg, persisted)
 	defer r.w.Close()
 	if dbStack {
 		if err := r.w.UseDbResource(); err != nil {
 			panic("cannot build DbResource: " + err.Error())
 		}
+	}
+	if stack == 2 {
+		if err := r.w.UsePoResource(); err != nil {
+			panic("infrastructure: cannot set up the gettext resource: " + err.Error()) // exit 2, never a violation
+		}
+		o.Probes["runs_on_gettext_resource"]++
 	}
 	r.s.KeepLookups = true
 	nreq := t.Range(2, 12)
